@@ -220,7 +220,7 @@ def run(ctx):
             null_stripped(ctx, fi, paths)
     ctx.floor("C08.R1", 30)
     ctx.floor("C08.R2", 12)
-    ctx.floor("C08.R3", 12)
+    ctx.floor("C08.R3", 12)   # raised below once the shared Pointer obligations are in
     ctx.floor("C08.R4", 8)
     from . import C04
     C04.shared_obligations(ctx, "C08.R5", {"Prefixed", "FixedSized", "NullTerminated", "NullStripped", "OffsettedEnd", "ProcessXor"})
@@ -238,7 +238,20 @@ def run(ctx):
         if o.rule == "C16.R1":
             ctx.ob("C08.R6", o.where, o.ok, o.what, key=o.key, loc=o.loc, detail=o.detail)
     C15.length_preserving(ctx, "C08.R6")
-    ctx.floor("C08.R6", 8)
+    # the probe Lazy uses on a delimiting class measures the region, not its inner construct: never inherited from above the class's _sizeof (shared with C05.R4)
+    from . import C05, C09
+    C05.probe_specificity(ctx, "C08.R6")
+    ctx.floor("C08.R6", 8 + 60)
+    # Pointer inside a region: tell, seek, inner construct and the restoring seek all act on one and the same stream, so the region's stream is
+    # left where it was (shared with C09.R2)
+    sub = _Ctx("C09", ctx.tier, ctx.root, model=ctx.model)
+    sub._summ = summariser(ctx)
+    C09.run(sub)
+    for e in sub.errors:
+        ctx.error("shared C09 rules: " + e)
+    for o in sub.obligations:
+        if o.rule == "C09.R2" and str(o.where).startswith("Pointer."):
+            ctx.ob("C08.R3", o.where, o.ok, o.what, key=o.key, loc=o.loc, detail=o.detail)
 
     substream_class_checks(ctx, "C08.R3")
 
